@@ -32,6 +32,7 @@ func checkC05(c *Ctx) {
 	c.checkSnapshotBeforeChange()
 	c.checkIntersectionPairsAreGenerations("C05.3d-intersections-pair-generations")
 	c.checkNoticeOldSideIsSnapshot("C05.4e-notice-before-side-is-snapshot")
+	c.checkDeltaReturnsOnlyChunks()
 }
 
 func (c *Ctx) checkModeTables() {
